@@ -116,7 +116,8 @@ class StlAstParserVisitor(LtlAstParserVisitor, StlParserVisitor):
 
         val = self.const_val_dict[const_name]
 
-        out = Fraction(Decimal(val))
+        # a value handed to declare_const() as a number is read by its decimal spelling, like a value given as text
+        out = Fraction(Decimal(str(val)))
 
         if ctx.unit() is None:
             unit = ''
